@@ -29,6 +29,9 @@ import (
 //go:embed driver/main.go.txt
 var driverText string
 
+// factoryVersion is part of every cache key: bump it when the files the factory itself writes change.
+const factoryVersion = "3"
+
 // Spec is one probe server: a schema and a gqlgen.yml body.
 type Spec struct {
 	Name   string            // for diagnostics
@@ -102,6 +105,7 @@ func (s Spec) key() string {
 	h := sha256.New()
 	io.WriteString(h, TreeHash())
 	io.WriteString(h, driverText)
+	io.WriteString(h, factoryVersion)
 	b, _ := json.Marshal(s)
 	h.Write(b)
 	return hex.EncodeToString(h.Sum(nil))[:24]
@@ -148,7 +152,7 @@ func typesFile(schemaText string) (string, error) {
 	for _, n := range names {
 		fmt.Fprintf(&b, "\ttypeOf[%q] = reflect.TypeOf(graph.%s{})\n", n, goName(n))
 	}
-	b.WriteString("\t_ = reflect.TypeOf\n}\n")
+	b.WriteString("\t_ = reflect.TypeOf\n\t_ = graph.Stub{}\n}\n")
 	return b.String(), nil
 }
 
